@@ -308,6 +308,10 @@ def server_main():
         import muutils.mlutils as _ml
 
         _ml.set_reproducibility(_ml.DEFAULT_SEED)
+    import gc
+
+    gc.collect()
+    gc.freeze()  # children fork constantly: keep the warm heap out of every later collection (and out of CoW traffic)
     _PRISTINE_RANDOM_STATE = random.getstate()
     _send(proto_out, {"ready": True, "hashseed": os.environ.get("PYTHONHASHSEED"), "t_import": time.time() - t0})
 
